@@ -1,8 +1,20 @@
-(* Props/C18.v — generated attrs / dataclass models construct from their samples and convert.
-   This revision: non-vacuity examples of the converter model (Model/Converters.v, tied by X-conv on every sample object
-   of the run); run_path_correct is merged from Proofs/ when finished. *)
-From Coq Require Import List Bool Arith NArith String.
+(* Props/C18.v — generated attrs / dataclass models construct from their samples and convert.  Statements only; proofs in
+   Proofs/ConvProps.v.  Model: Model/Converters.v (run_path = the Python post-init converter walking a path such as "OLS";
+   convert_spec = the specification: parse at pseudo-typed leaves, keep null, map over lists and mappings, leave the rest),
+   Model/Emit.v (path_of / string_field_paths = get_string_field_paths).  Tie: X-conv runs run_path and the real
+   __post_init__ on every sample object of the run.
+   PROVED, for every type, value, acceptance oracle and model table: on a value that inhabits its annotation (ht) the
+   converter never raises and returns exactly convert_spec (C18_run_path_correct / never_raises); post_init keeps the key
+   order, converts every field that has a path and leaves every other field untouched (the C18_post_init theorems).  The premise
+   NoDup (map fst fs) is necessary (C18_dup_fields_counterexample) and holds for Python dicts.  The code before the D13
+   repair is refuted (C18_unrepaired_code_refuted).
+   NOT PROVED here: that the value of the sample inhabits the annotation is C01 (Sound.generate_sound); the constructor of
+   attrs / dataclasses itself and the per-field converter= form (D14, known finding) are runtime behaviour, covered by the
+   oracle only. *)
+From Coq Require Import List Bool Arith NArith ZArith String.
 From J2M.Model Require Import Base Emit Converters.
+From J2M.Sem Require Import HasType.
+From J2M.Proofs Require Import ConvProps.
 Import ListNotations.
 Definition acc_int (p : pseudo) (s : str) : bool := match p with PInt => forallb (fun c => (48 <=? c)%N && (c <=? 57)%N) s | _ => false end.
 (* Optional[List[IntString]] : path O.L.S ; None is kept (D13, fixed), strings are parsed, the list is mapped *)
@@ -17,3 +29,83 @@ Proof. reflexivity. Qed.
 Example C18_example_spec :
   convert_spec 5 (TOpt (TList (TPseudo PInt))) (JArr [JStr (s_ "1"); JStr (s_ "42")]) = VList [VParsed PInt (s_ "1"); VParsed PInt (s_ "42")].
 Proof. reflexivity. Qed.
+
+Theorem C18_path_of_shape_iff :
+  forall (t : ty) (p : str), path_of t = Some (Some p) <-> shape p t.
+Proof. exact ConvProps.path_of_shape_iff. Qed.
+
+Theorem C18_path_of_tokens :
+  forall (t : ty) (p : str),
+       path_of t = Some (Some p) ->
+       exists q : list N, p = q ++ 83%N :: nil /\ Forall (fun c : N => c = 79%N \/ c = 76%N \/ c = 68%N) q.
+Proof. exact ConvProps.path_of_tokens. Qed.
+
+Theorem C18_run_path_correct :
+  forall (accepts : pseudo -> str -> bool) (mf : N -> option fields) (t : ty) (p : str) (v : json),
+       ht accepts mf v t ->
+       path_of t = Some (Some p) ->
+       exists n : nat,
+         n = Datatypes.length p /\
+         (forall fuel : nat, n <= fuel -> run_path accepts p v t false = Some (convert_spec fuel t v)).
+Proof. exact ConvProps.run_path_correct. Qed.
+
+Theorem C18_run_path_never_raises :
+  forall (accepts : pseudo -> str -> bool) (mf : N -> option fields) (t : ty) (p : str) (v : json),
+       ht accepts mf v t -> path_of t = Some (Some p) -> run_path accepts p v t false <> None.
+Proof. exact ConvProps.run_path_never_raises. Qed.
+
+Theorem C18_post_init_correct :
+  forall (accepts : pseudo -> str -> bool) (mf : N -> option fields) (fs : list (str * ty))
+         (paths : list (str * str)) (obj : list (str * json)),
+       NoDup (map fst fs) ->
+       string_field_paths fs = Some paths ->
+       obj_ok accepts mf fs obj ->
+       post_init accepts fs obj = Some (map (fun kv : str * json => (fst kv, conv_field fs kv)) obj).
+Proof. exact ConvProps.post_init_correct. Qed.
+
+Theorem C18_post_init_lookup_path :
+  forall (accepts : pseudo -> str -> bool) (mf : N -> option fields) (fs : list (str * ty))
+         (paths : list (str * str)) (obj : list (str * json)),
+       NoDup (map fst fs) ->
+       string_field_paths fs = Some paths ->
+       obj_ok accepts mf fs obj ->
+       NoDup (map fst obj) ->
+       exists res : list (str * cval),
+         post_init accepts fs obj = Some res /\
+         map fst res = map fst obj /\
+         (forall (k : str) (v : json) (t : ty) (p : str),
+          In (k, v) obj ->
+          lookup k fs = Some t ->
+          path_of t = Some (Some p) ->
+          forall fuel : nat, Datatypes.length p <= fuel -> lookup k res = Some (convert_spec fuel t v)).
+Proof. exact ConvProps.post_init_lookup_path. Qed.
+
+Theorem C18_post_init_lookup_nopath :
+  forall (accepts : pseudo -> str -> bool) (mf : N -> option fields) (fs : list (str * ty))
+         (paths : list (str * str)) (obj : list (str * json)),
+       NoDup (map fst fs) ->
+       string_field_paths fs = Some paths ->
+       obj_ok accepts mf fs obj ->
+       NoDup (map fst obj) ->
+       exists res : list (str * cval),
+         post_init accepts fs obj = Some res /\
+         (forall (k : str) (v : json) (t : ty),
+          In (k, v) obj -> lookup k fs = Some t -> path_of t = Some None -> lookup k res = Some (VRaw v)).
+Proof. exact ConvProps.post_init_lookup_nopath. Qed.
+
+Theorem C18_unrepaired_code_refuted :
+  forall (accepts : pseudo -> str -> bool) (mf : N -> option fields),
+       ~
+       (forall (t : ty) (p : str) (v : json),
+        ht accepts mf v t -> path_of t = Some (Some p) -> run_path_old accepts p v t false <> None).
+Proof. exact ConvProps.run_path_old_not_safe. Qed.
+
+Theorem C18_dup_fields_counterexample :
+  let acc := fun (_ : pseudo) (_ : str) => true in
+       let mf := fun _ : N => None in
+       let fs := (97%N :: nil, TInt) :: (97%N :: nil, TPseudo PInt) :: nil in
+       let obj := (97%N :: nil, JInt Z0) :: nil in
+       string_field_paths fs = Some ((97%N :: nil, nil) :: nil) /\
+       obj_ok acc mf fs obj /\ post_init acc fs obj = None.
+Proof. exact ConvProps.post_init_dup_fields_raises. Qed.
+
